@@ -172,3 +172,75 @@ m("c10-sp-base-prefix", ["C10"], "osaca/parser/parser_AArch64.py",
             base["prefix"] = "x\"""",
   """        if base is not None and "name" in base and base["name"].lower() == "sp":
             base["prefix"] = "w\"""")
+
+# ---- C06
+m("c06-disp-sign", ["C06"], "osaca/semantics/kernel_dg.py",
+  "            if mem.offset:\n                addr_change -= mem.offset.value",
+  "            if mem.offset:\n                addr_change += mem.offset.value")
+m("c06-scale-ignored", ["C06"], "osaca/semantics/kernel_dg.py",
+  "                if mem.scale != src.scale:\n                    # scale factors do not match\n                    continue",
+  "                if False:\n                    continue")
+m("c06-index-change-unscaled", ["C06"], "osaca/semantics/kernel_dg.py",
+  '                addr_change += index_change["value"] * src.scale', '                addr_change += index_change["value"]')
+m("c06-no-forward-latency", ["C06"], "osaca/semantics/kernel_dg.py",
+  '                    edge_weight += self.model.get("store_to_load_forward_latency", 0)',
+  '                    edge_weight += 0')
+m("c06-second-store-no-stop", ["C06"], "osaca/semantics/kernel_dg.py",
+  "                    if self.is_memstore(dst, instr_form, register_changes):\n                        break",
+  "                    if self.is_memstore(dst, instr_form, register_changes):\n                        pass")
+m("c06-copy-ignored", ["C06"], "osaca/semantics/kernel_dg.py",
+  '                if change["name"] != reg:', '                if False and change["name"] != reg:')
+m("c06-dec-as-inc", ["C06"], "osaca/data/isa/x86.yml",
+  "op1['value'] -= 1", "op1['value'] += 1")
+
+# ---- C07
+m("c07-no-count-check", ["C07"], "osaca/semantics/hw_model.py",
+  "        if len(operands) != len(i_operands):\n            return False",
+  "        if len(operands) > len(i_operands):\n            return False")
+m("c07-gpr-excludes-r8", ["C07"], "osaca/semantics/hw_model.py",
+  '            if i_reg_name == "gpr":\n                return True',
+  '            if i_reg_name == "gpr":\n                return not any(ch.isdigit() for ch in reg.name)')
+m("c07-scale-class-inverted", ["C07"], "osaca/semantics/hw_model.py",
+  """                or (mem.scale != 1 and i_mem.scale != 1)
+            )
+        ):
+            return True
+        return False
+
+    def _create_yaml_object""",
+  """                or (mem.scale == 1 and i_mem.scale != 1)
+            )
+        ):
+            return True
+        return False
+
+    def _create_yaml_object""")
+m("c07-suffix-strips-two", ["C07"], "osaca/semantics/arch_semantics.py",
+  """                # check for instruction without GAS suffix
+                instruction_data = self._machine_model.get_instruction(
+                    instruction_form.mnemonic[:-1], instruction_form.operands
+                )""",
+  """                # check for instruction without GAS suffix
+                instruction_data = self._machine_model.get_instruction(
+                    instruction_form.mnemonic[:-2], instruction_form.operands
+                )""")
+m("c07-name-not-uppercased", ["C07"], "osaca/semantics/hw_model.py",
+  '        name_matched_iforms = self._data["instruction_forms_dict"].get(name.upper(), [])',
+  '        name_matched_iforms = self._data["instruction_forms_dict"].get(name, [])')
+m("c07-a64-shape-ignored", ["C07"], "osaca/semantics/hw_model.py",
+  """        if reg.prefix != i_reg.prefix:
+            return False
+        if reg.shape is not None:""",
+  """        if reg.prefix != i_reg.prefix:
+            return False
+        if reg.shape is not None and False:""")
+m("c07-cc-wildcard-literal", ["C07"], "osaca/semantics/hw_model.py",
+  "                return (i_operand.ccode == self.WILDCARD) or (i_operand.ccode == operand.ccode)",
+  "                return i_operand.ccode == operand.ccode")
+m("c07-a64-postindex-ignored", ["C07"], "osaca/semantics/hw_model.py",
+  """                or mem.post_indexed == i_mem.post_indexed
+                or (isinstance(mem.post_indexed, dict) and i_mem.post_indexed)""",
+  """                or True""")
+m("c07-x86-imm-matches-any", ["C07"], "osaca/semantics/hw_model.py",
+  '            return isinstance(i_operand, ImmediateOperand) and i_operand.imd_type == "int"',
+  '            return not isinstance(i_operand, MemoryOperand)')
